@@ -872,15 +872,30 @@ class BaseInterpreter(Generic[TContext, TEvent]):
         restore_ids = snapshot.get("configuration") or snapshot.get(
             "state_ids"
         )
+        history = snapshot.get("history") or {}
+        actors = snapshot.get("actors") or {}
+        system = snapshot.get("system") or {}
         if (
             "context" not in snapshot
             or not isinstance(snapshot.get("status"), str)
             or not isinstance(restore_ids, list)
             or not all(isinstance(sid, str) for sid in restore_ids)
+            or not isinstance(history, dict)
+            or not all(
+                isinstance(ids, list) and all(isinstance(i, str) for i in ids)
+                for ids in history.values()
+            )
+            or not isinstance(actors, dict)
+            or not all(
+                isinstance(rec, dict) and isinstance(rec.get("snapshot"), dict)
+                for rec in actors.values()
+            )
+            or not isinstance(system, dict)
         ):
             raise InvalidConfigError(
                 "Snapshot is missing 'context', 'status' or a list of state "
-                "ids ('configuration' / 'state_ids')."
+                "ids ('configuration' / 'state_ids'), or its 'history', "
+                "'actors' or 'system' entry has the wrong shape."
             )
 
         # 🧪 Create a new instance of the correct interpreter class (sync/async)
